@@ -23,9 +23,36 @@ def rerun_case(case, drv):
         out["code"] = code_decode(case["s"])
     elif op == "parse_auth_data":
         out["code"] = cases.code_parse_auth_data(bytes.fromhex(case["b"]))
+    elif op == "verify_reg":
+        c, e = case["cred"], case["expect"]
+        cr = {"id": c["id"], "raw_id": bytes.fromhex(c["raw_id"]), "type": c["type"], "client_data_json": bytes.fromhex(c["cdj"]),
+              "attestation_object": bytes.fromhex(c["att_obj"])}
+        ex = {"challenge": bytes.fromhex(e["challenge"]), "rp_id": e["rp_id"], "origin": e["origin"],
+              "require_up": e.get("require_up", True), "require_uv": e.get("require_uv", False),
+              "algs": [int(a) for a in e["algs"]], "roots": {k: [bytes.fromhex(p) for p in v] for k, v in e.get("roots", [])}}
+        out["code"] = cases.run_reg(cr, ex)
+    elif op == "parse_cred_json":
+        from .props.C13 import code_parse
+        from .driver import from_jval
+        out["code"] = code_parse(case["kind"], case["text"] if "text" in case else from_jval(case["value"]))
+    elif op == "decode_cose":
+        out["code"] = cases.code_decode_cose(bytes.fromhex(case["b"]))
+    elif op == "cose_to_pubkey":
+        out["code"] = cases.code_cose_to_pubkey(bytes.fromhex(case["b"]))
+    elif op == "parse_cert_info":
+        out["code"] = cases.code_parse_cert_info(bytes.fromhex(case["b"]))
+    elif op == "parse_pub_area":
+        out["code"] = cases.code_parse_pub_area(bytes.fromhex(case["b"]))
+    elif op == "cbor_roundtrip":
+        out["code"] = cases.code_cbor_roundtrip(bytes.fromhex(case["b"]))
+    elif op == "parse_client_data":
+        out["code"] = cases.code_parse_client_data(bytes.fromhex(case["b"]))
+    elif op == "b64_encode":
+        from webauthn.helpers import bytes_to_base64url
+        out["code"] = {"k": "accept", "record": bytes_to_base64url(bytes.fromhex(case["b"]))}
     else:
-        from . import replay_ops
-        out["code"] = replay_ops.run(case)
+        out["code"] = {"note": f"no real-code replay is implemented for op {op!r}; the model's outcome follows; the property module "
+                               f"harness/props/<id>.py shows how the case was built"}
     if drv is not None:
         out["model"], _ = drv.call(case)
     return out
@@ -46,7 +73,7 @@ def main(argv):
 
     def walk(x):
         if isinstance(x, dict):
-            if "op" in x and isinstance(x["op"], str):
+            if "op" in x and isinstance(x["op"], str) and (set(x) & {"cred", "b", "s", "text", "value", "args", "cases"}):
                 found.append(x)
             else:
                 for v in x.values():
@@ -55,7 +82,9 @@ def main(argv):
             for v in x:
                 walk(v)
     walk(data.get("case"))
+    walk(data.get("all_new_violations"))
     walk(data.get("first_disagreements"))
+    walk(data.get("tie_disagreements"))
     for case in found[:5]:
         print("case:", json.dumps(case)[:400])
         try:
@@ -65,6 +94,9 @@ def main(argv):
         except Exception as e:
             print("  replay failed:", type(e).__name__, e)
     if not found:
-        print("no executable case in this file (proof obligation / correspondence entry only):")
+        print(f"no single executable case in this file (a history / schedule / proof-obligation entry). To reproduce: "
+              f"VERIF_SEED={data.get('seed', 0)} ./check {data.get('property')} --tier {data.get('tier', 'quick')}")
+        for v in (data.get("all_new_violations") or [])[:3]:
+            print("  violation:", json.dumps({k: v[k] for k in v if k != "case"})[:600])
         print(json.dumps({k: data[k] for k in data if k in ('undischarged_theorems', 'banned_tokens', 'build_errors')}, indent=1)[:2000])
     return 0
